@@ -587,7 +587,7 @@ def check_c08(w):
                             % (t['idx'], si, len(d), t['outcome'][:2]))
             for c in d:
                 info = c[5]
-                if not info['done'] or not info['event_set']:
+                if not info['done'] or info['event_set'] is False:
                     w.violation('C08', 'done-before-final',
                                 't%d sub%d on_done entered with done()=%s, result unblocked=%s, status=%s'
                                 % (t['idx'], si, info['done'], info['event_set'], info['status']))
